@@ -59,8 +59,7 @@ is what the options are documented to drop plus order normalisation (keys and id
 sorted, fixups by index).  All three are compared with the implementation on every run.
 
 `MapOK1` (Proofs/C06.lean) is the domain: numeric tokens are numeric and free of blanks and
-brackets, keys are not `id` / `replace…` and differ ignoring case, fixup indexes are 0..99 and
-distinct, output fields do not contain their own separator, worldspawn is not hidden, the format
+brackets, keys are not `id` / `replace…` and differ ignoring case, fixup indexes are distinct, output fields do not contain their own separator, worldspawn is not hidden, the format
 version is 100 — and, in this **v1 statement**, faces carry no displacement and no Strata point
 data (those are covered by the correspondence and the search only). `IdsOK`: no id is the
 "allocate one" marker -1, group ids are distinct. -/
